@@ -68,7 +68,16 @@ def R2_proxy_and_order(run):
             anyc = [x for x in subterms(at.term) if x[0] == "call" and x[1].endswith("::any")]
     run.check("R2", "proxy-needs-pda-present", ok, "a zeroed tick array is used although its PDA was not supplied", loc=tb.loc(), detail="has_account_info => push zeroed; else break")
     # the PDA compared is derive_tick_array_pda(whirlpool, start index)
-    cl = [f for f in facts.fn_list if f.kind == "closure" and f.path.startswith(tb.path + "::{closure")]
+    # (the closure handed to `any`, wherever it is defined: a helper spliced into try_build keeps its own closure path)
+    pvt = prov_of(tb)
+    cpaths = set()
+    for bi, t in tb.calls():
+        if (t["f"].get("raw", callee_path(t) or "")).endswith("::any"):
+            for a_ in t["a"]:
+                for x in subterms(pvt.operand(a_, bi, len(tb.blocks[bi]["s"]))):
+                    if x[0] == "closure":
+                        cpaths.add(x[1])
+    cl = [f for f in facts.fn_list if f.kind == "closure" and (f.path in cpaths or f.path.startswith(tb.path + "::{closure"))]
     okp = False
     for c in cl:
         pvc = prov_of(c)
@@ -251,10 +260,22 @@ def R4_sequence(run):
         g = facts.need_fn(TA + "::" + name)
         pv = prov_of(g)
         ok = False
+
+        def atom_(t):
+            t = strip(t)
+            if t[0] == "call" and t[1].endswith("start_tick_index"):
+                return "S"
+            if t[0] == "param" and t[1] == "tick_spacing":
+                return "T"
+            return show(t, True)
+        want_poly = {("S",): 1} if "min" in name else {("S",): 1, ("T",): 88}
         for bi, bb in enumerate(g.blocks):
             if bb["t"]["k"] == "ret":
                 r = strip(pv.local(0, bi, len(bb["s"])))
-                ok = r[0] == "bin" and r[1] == want_cmp[0] and const_val(r[3]) == want_cmp[1] and mentions(r[2], lambda s: s[0] == "call" and s[1].endswith("start_tick_index"))
+                if r[0] == "bin" and r[1] in A.SWAP:
+                    # whichever side the constant is written on
+                    op_, l_, c_ = (r[1], r[2], r[3]) if const_val(r[3]) is not None else (A.SWAP[r[1]], r[3], r[2])
+                    ok = op_ == want_cmp[0] and const_val(c_) == want_cmp[1] and poly(l_, atom_) == want_poly
         run.check("R4", name, ok, "%s is no longer start %s %d" % (name, want_cmp[0], want_cmp[1]), loc=g.loc(), detail="start%s %s %d" % (" + 88*spacing" if "max" in name else "", want_cmp[0], want_cmp[1]))
     # array index out of range in the accessors
     for name in ("get_tick", "update_tick", "get_tick_offset"):
